@@ -1257,15 +1257,111 @@ def part_somersault(task: Tuple, col: common.Collector) -> None:
         shutil.rmtree(tmp, ignore_errors=True)
 
 
+def api_edit_leg(col: common.Collector, r: Any, rounds: int) -> None:
+    """Databases changed through the object model (the way examples/mksomersaultmodifiedpdx.py
+    does it: copies of existing services and requests with new names, IDs and constants, then
+    refresh()), after the databases have already been compared once.  Expected classification
+    from a shadow of the service names per layer."""
+    import copy
+
+    import odxtools
+    from odxtools.cli.compare import Comparison
+    from odxtools.odxlink import OdxLinkId, OdxLinkRef
+    pdx = os.path.join(common.REPO, "examples", "somersault.pdx")
+    db_old = odxtools.load_pdx_file(pdx)
+    db_new = odxtools.load_pdx_file(pdx)
+
+    def names_per_layer(db: Any) -> Dict[str, Set[str]]:
+        return {dl.short_name: {s.short_name for s in dl.services} for dl in db.diag_layers}
+
+    def compare_all(step: str, added: Set[str], deleted: Set[str]) -> None:
+        task = Comparison()
+        task.diagnostic_layer_names = {dl.short_name for dl in db_new.diag_layers}
+        try:
+            res = task.compare_databases(db_new, db_old)
+        except Exception as e:  # the outcome is data
+            col.violation(("api-edit-compare-raises", type(e).__name__), {"step": step, "problem": str(e)[:300]})
+            return
+        now, before = names_per_layer(db_new), names_per_layer(db_old)
+        for ln in sorted(now):
+            col.ev()
+            got = observe(res[ln])
+            want_new = sorted(n for n in now[ln] - before[ln] if n in added)
+            want_del = sorted(n for n in before[ln] - now[ln] if n in deleted)
+            problem = None
+            if got["new_services"] != want_new:
+                problem = "added"
+            elif got["deleted_services"] != want_del:
+                problem = "deleted"
+            elif got["changed_name_of_service"] or got["changed_parameters_of_service"]:
+                problem = "spurious-change"
+            if problem:
+                col.violation(("api-edit-misreported", problem),
+                              {"step": step, "layer": ln, "expected_new": want_new,
+                               "expected_deleted": want_del, "reported": got})
+                return
+        col.count("api-edit:" + step.split(":")[0])
+
+    compare_all("self", set(), set())
+    added: Set[str] = set()
+    deleted: Set[str] = set()
+    base = db_new.base_variants.somersault
+    for k in range(rounds):
+        templates = [s for s in base.services
+                     if s.request is not None and len(s.request.parameters) and
+                     hasattr(s.request.parameters[0], "coded_value") and s.short_name not in added]
+        # every prefix in use has been asked for before the edit (a tool listing the services)
+        used = {bytes(s.request.coded_const_prefix())[:1] for s in base.services if s.request is not None}
+        free = [v for v in range(0x30, 0x7E) if bytes([v]) not in used]
+        if not templates or not free:
+            break
+        tpl = r.choice(templates)
+        name = f"added_{k}"
+        frags = tpl.odx_id.doc_fragments
+        rq = copy.deepcopy(tpl.request)
+        rq.odx_id = OdxLinkId("somersault.RQ." + name, frags)
+        rq.short_name = name
+        rq.parameters[0].coded_value = r.choice(free)
+        svc = copy.deepcopy(tpl)
+        svc.odx_id = OdxLinkId("somersault.service." + name, frags)
+        svc.short_name = name
+        svc.request_ref = OdxLinkRef.from_id(rq.odx_id)
+        base.diag_layer_raw.requests.append(rq)
+        base.diag_layer_raw.diag_comms_raw.append(svc)
+        db_new.refresh()
+        base = db_new.base_variants.somersault
+        added.add(name)
+        compare_all(f"add:{tpl.short_name}", added, deleted)
+        if k % 2 == 1:
+            # ... and one of the original services of the base variant goes
+            victims = [s for s in base.diag_layer_raw.diag_comms_raw
+                       if getattr(s, "short_name", None) in ("tester_present", "session_stop") and
+                       s.short_name not in deleted]
+            if victims:
+                v = victims[0]
+                base.diag_layer_raw.diag_comms_raw.remove(v)
+                db_new.refresh()
+                base = db_new.base_variants.somersault
+                deleted.add(v.short_name)
+                compare_all(f"delete:{v.short_name}", added, deleted)
+
+
+def part_api(task: Tuple, col: common.Collector) -> None:
+    worker, rounds = task
+    warnings.simplefilter("ignore")
+    api_edit_leg(col, common.rng(worker, "c18-api"), rounds)
+
+
 def part(task: Tuple, col: common.Collector) -> None:
-    (part_somersault if task[0] == "som" else part_generated)(task[1], col)
+    {"som": part_somersault, "gen": part_generated, "api": part_api}[task[0]](task[1], col)
 
 
 REQUIRED = (["kind:add", "kind:delete", "kind:rename", "kind:param-change",
              "self-compare:layers", "db-compare:self", "db-compare:edit", "metrics-rows",
              "metrics-rows-with-comparams", "metrics-rows-with-dops", "somersault-edits",
              "edit:delete/service/new-layer-has-no-service", "edit:param-change/dop-data-type",
-             "tool-leg:overview-tables", "tool-leg:list-overviews", "tool-leg:variant-overviews"] +
+             "tool-leg:overview-tables", "tool-leg:list-overviews", "tool-leg:variant-overviews",
+             "api-edit:self", "api-edit:add", "api-edit:delete"] +
             [f"attr:{a}/{k}" for a in PARAM_ATTRS for k in ("request", "pos", "neg")])
 
 
@@ -1278,6 +1374,7 @@ def run(tier: str, col: common.Collector) -> None:
     som_edits = enumerate_edits(som_root, dop_type_edits=False)
     n = 8
     common.pmap(part, [("som", (i, som_edits[i::n])) for i in range(n)] +
+                [("api", (w, 3 if tier == "quick" else 6)) for w in range(2 if tier == "quick" else 8)] +
                 [("gen", t) for t in tasks], col)
     col.notes["generated_containers"] = per_worker * nworkers
     col.notes["somersault_edits_enumerated"] = len(som_edits)
